@@ -3,6 +3,7 @@ package main
 import (
 	"fmt"
 	"go/types"
+	"sort"
 	"strings"
 	"sync"
 
@@ -227,7 +228,16 @@ func (h *geHarness) evaluate(ls []lexeme, failAt int, reparse bool) geResult {
 		}
 	}
 	ev := h.c.MustFunc(pkgCalc, "ExpressionCalculator", "EvaluateUsingVariablesAndFunctions")
+	var known []string
+	for n := range h.vals {
+		known = append(known, n)
+	}
+	sort.Strings(known)
+	before := h.snapshot(known)
 	r, out := h.m.Call(ev, h.calc, &mSym{name: "vars", nonNil: true}, &mSym{name: "funcs", nonNil: true})
+	if after := h.snapshot(known); after != before && out.kind == "ok" {
+		return geResult{kind: "mutated", trace: h.trace, why: fmt.Sprintf("before [%s] after [%s]", before, after)}
+	}
 	switch out.kind {
 	case "panic":
 		return geResult{kind: "panic", why: out.why, trace: h.trace}
@@ -417,6 +427,8 @@ func (c *Ctx) geRun() []*geVerdict {
 					switch {
 					case got.kind == "opaque":
 						r.undec = show + ": " + got.why
+					case got.kind == "mutated":
+						r.bad = fmt.Sprintf("evaluating %s changes the compiled program or the value of a variable: %s", show, got.why)
 					case got.kind == "panic":
 						r.bad = fmt.Sprintf("evaluating %s panics: %s", show, got.why)
 					case got.kind == "error":
@@ -542,4 +554,42 @@ func (c *Ctx) inContainerParamByEvaluation() int {
 		return 1
 	}
 	return -1
+}
+
+// snapshot renders the compiled program (type, position and payload of every result token) and the
+// values of the variables handed out so far: an evaluation must leave both unchanged.
+func (h *geHarness) snapshot(names []string) string {
+	var sb strings.Builder
+	rt := h.c.MustFunc(pkgCalc, "ExpressionCalculator", "ResultTokens")
+	rv, out := h.m.Call(rt, h.calc)
+	if out.kind == "ok" {
+		if sl, ok := rv.(mSlice); ok {
+			tokT := rt.Signature.Results().At(0).Type().Underlying().(*types.Slice).Elem()
+			for _, t := range sl.arr {
+				ty, _ := h.gx.method(t, tokT, "Type")
+				col, _ := h.gx.method(t, tokT, "Column")
+				val, _ := h.gx.method(t, tokT, "Value")
+				sb.WriteString(mRender(ty) + "@" + mRender(col) + "=" + h.valueText(val) + " ")
+			}
+		}
+	}
+	for _, n := range names {
+		sb.WriteString(n + "=" + h.valueText(h.vals[n]) + " ")
+	}
+	return sb.String()
+}
+
+func (h *geHarness) valueText(v mv) string {
+	p, ok := v.(*mv)
+	if !ok || p == nil {
+		return "nil"
+	}
+	vt := h.c.MustFunc(pkgVariants, "Variant", "Type")
+	ao := h.c.MustFunc(pkgVariants, "Variant", "AsObject")
+	t, o1 := h.m.Call(vt, v)
+	pl, o2 := h.m.Call(ao, v)
+	if o1.kind != "ok" || o2.kind != "ok" {
+		return "?"
+	}
+	return mRender(t) + ":" + mRender(pl)
 }
